@@ -353,6 +353,14 @@ Definition dir_of (name : bytes) : bytes := plugin_prefix ++ name.
 Definition dir_tree (it : tree) : tree :=
   map (fun '(repo, ps) => (repo, map (fun '(name, vs) => (dir_of name, vs)) ps)) it.
 
+(* the installations in listing order, and "every version directory name parses" *)
+Definition flat (it : tree) : list (bytes * bytes * list bytes) :=
+  concat (map (fun '(repo, ps) => map (fun '(name, vs) => (repo, name, vs)) ps) it).
+Definition tree_parses (it : tree) : bool :=
+  forallb (fun '(_, ps) => forallb (fun '(_, vs) => is_ok (parse_versions vs)) ps) it.
+Definition parsed_or_nil (names : list bytes) : list version :=
+  match parse_versions names with Ok vs => vs | _ => [] end.
+
 (* ------------------------------------------------------------------------------------------------ *)
 (* cmd/root.go dbLoop: the first listed plugin with the database's reference, its first version (they are
    sorted descending) that the constraint accepts; `break` after that plugin. *)
@@ -475,9 +483,6 @@ Definition installed_versions (it : tree) (name repo : bytes) : list bytes :=
                                then concat (map (fun '(n, vs) => if bytes_eqb n name then vs else []) ps)
                                else []) it).
 
-Definition parsed_or_nil (names : list bytes) : list version :=
-  match parse_versions names with Ok vs => vs | _ => [] end.
-
 (* the property applied to the implementation's observation alone *)
 Definition c28_spec (c : c28_case) : bool :=
   match c with
@@ -486,7 +491,7 @@ Definition c28_spec (c : c28_case) : bool :=
       all2 (fun '(repo, name, vs) '(n, r, ovs) =>
                   bytes_eqb n name && bytes_eqb r repo && descending (map of_obs ovs)
                   && same_order (sort_desc (parsed_or_nil vs)) (map of_obs ovs))
-               (concat (map (fun '(repo, ps) => map (fun '(name, vs) => (repo, name, vs)) ps) t)) l
+               (flat t) l
   | KList true t _ => false            (* installed trees carry parseable versions: the listing must succeed *)
   | KResolve it dbs db obs =>
       match find (fun d => bytes_eqb (db_name d) db) dbs with
